@@ -35,6 +35,12 @@ def alias_siblings(fx, res, rule):
             if isinstance(rv, dict):
                 if rv["k"] == "use" and op_int(rv["op"]) == 1 and any(re.match(eqrx, g) for g in guard_strs(b, d[0])):
                     continue
+                # `self.<primary>.as_ref().is_some_and(|p| p == query)`: the same equality, false when there is no primary spelling
+                prim = {"short_flag_aliases_to": "self.short_flag", "long_flag_aliases_to": "self.long_flag"}.get(fn_)
+                isa = [c for c in b.calls_to(r"Option::is_some_and$") if prim and expr(b, c.args[0]) == prim and ("T:" + expr(b, c.dest)) in guard_strs(b, d[0])]
+                if rv["k"] == "use" and op_int(rv["op"]) == 1 and isa and all(
+                        re.fullmatch(r"(eq|Eq)\((\w+,arg1\.0|arg1\.0,\w+)\)", strip_transparent(expr(cb, 0))) for c in isa for cb in closure_bodies(fx, c)[-1:]):
+                    continue
                 bad.append("bb%d: %s under %s" % (d[0], rv.get("k"), [g[:50] for g in guard_strs(b, d[0])]))
             else:
                 cbe = [expr(cb, 0) for cb in closure_bodies(fx, rv)]
